@@ -48,6 +48,9 @@ func withDeadline(what string, d time.Duration, f func()) {
 func workRound(r *rng, round int) {
 	nItems := 1 + r.intn(40)
 	n := 1 + r.intn(8)
+	if r.intn(60) == 0 {
+		n = []int{257, 300, 1000}[r.intn(3)] // more runners than any sensible cap
+	}
 	g := make([][]int, nItems)
 	for i := range g {
 		for k := r.intn(4); k > 0; k-- {
@@ -63,25 +66,30 @@ func workRound(r *rng, round int) {
 	// item id i is a Go value of mixed dynamic type; distinct ids are distinct under == but share printed forms
 	ptrs := map[int]*pt{}
 	val := func(i int) any {
-		g := i / 7
-		switch i % 7 {
+		g := i / 8
+		switch i % 8 {
 		case 0:
 			return g
 		case 1:
 			return strconv.Itoa(g)
 		case 2:
-			return int64(g)
+			if g == 0 {
+				return nil // the nil interface value is a legitimate item
+			}
+			return float64(g)
 		case 3:
-			return [2]int{g, g}
+			return int64(g)
 		case 4:
+			return [2]int{g, g}
+		case 5:
 			return fmt.Sprintf("[%d %d]", g, g)
 		}
 		return ptrs[i]
 	}
 	ids := map[any]int{}
 	for i := 0; i < nItems; i++ {
-		if k := i % 7; k >= 5 {
-			ptrs[i] = &pt{g: i / 7}
+		if k := i % 8; k >= 6 {
+			ptrs[i] = &pt{g: i / 8}
 		}
 		ids[val(i)] = i
 	}
@@ -156,6 +164,7 @@ func cacheRound(r *rng, round int) {
 	var c par.Cache
 	calls := make([]int32, nKeys)
 	fdone := make([]int32, nKeys)
+	completed := make([]int32, nKeys) // some Do(k) has returned
 	vals := make([]*boxed, nKeys)
 	for k := range vals {
 		vals[k] = &boxed{k, round}
@@ -183,7 +192,11 @@ func cacheRound(r *rng, round int) {
 				for j := 0; j < 6; j++ {
 					k := lr.intn(nKeys)
 					if lr.intn(3) == 0 {
+						was := atomic.LoadInt32(&completed[k])
 						v := c.Get(k)
+						if v == nil && was == 1 {
+							report("get-after-done", fmt.Sprintf("round %d: Get(%d) returned nil although a Do(%d) had already returned", round, k, k))
+						}
 						if v != nil {
 							b, ok := v.(*boxed)
 							if !ok || b != vals[k] || b.k != k { // reads the pointee: a torn publication would race here
@@ -209,9 +222,34 @@ func cacheRound(r *rng, round int) {
 						if atomic.LoadInt32(&fdone[k]) != 1 {
 							report("do-after-f", fmt.Sprintf("round %d: Do(%d) returned before f completed", round, k))
 						}
+						atomic.StoreInt32(&completed[k], 1)
 					}
 				}
 			}(gi)
+		}
+		wg.Wait()
+		// contention on computed keys: several goroutines spinning on Get while others call Do again
+		for k := 0; k < nKeys; k++ {
+			if atomic.LoadInt32(&completed[k]) != 1 {
+				continue
+			}
+			for gi := 0; gi < 6; gi++ {
+				wg.Add(1)
+				go func(k, gi int) {
+					defer wg.Done()
+					for j := 0; j < 50; j++ {
+						if gi < 4 {
+							if v := c.Get(k); v == nil {
+								report("get-after-done", fmt.Sprintf("round %d: Get(%d) returned nil although Do(%d) had completed (contended Get)", round, k, k))
+								return
+							}
+						} else if v := c.Do(k, func() any { atomic.AddInt32(&calls[k], 1); return vals[k] }); v != any(vals[k]) {
+							report("do-returns-f-value", fmt.Sprintf("round %d: Do(%d) = %v after completion", round, k, v))
+							return
+						}
+					}
+				}(k, gi)
+			}
 		}
 		wg.Wait()
 	})
